@@ -652,7 +652,7 @@ pub fn check_main(engine: &'static dyn Engine, tier: &str) -> i32 {
         let _ = std::fs::create_dir_all(&replay_dir);
         let case = v["case"].clone();
         let (min_case, tried) = minimise(engine, &case, sig);
-        let r = isolated_execute(engine, &min_case);
+        let r = isolated_execute_if(engine, &min_case, sig.contains("process-death"));
         let detail = r
             .violation
             .as_ref()
@@ -810,7 +810,13 @@ pub fn check_main(engine: &'static dyn Engine, tier: &str) -> i32 {
 
 /// run a case in a child process when it may kill the process
 pub fn isolated_execute(engine: &dyn Engine, case: &Value) -> RunResult {
-    if !engine.may_kill_process() {
+    isolated_execute_if(engine, case, false)
+}
+
+/// `force_child`: the case is known to have killed a process (its verdict is a process death):
+/// never run it in the coordinator itself, whatever the engine says about its cases in general
+pub fn isolated_execute_if(engine: &dyn Engine, case: &Value, force_child: bool) -> RunResult {
+    if !engine.may_kill_process() && !force_child {
         return engine.execute(case);
     }
     let dir = std::env::temp_dir().join(format!("ruschm-sim-{}", std::process::id()));
@@ -873,7 +879,7 @@ pub fn minimise(engine: &dyn Engine, case: &Value, signature: &str) -> (Value, u
                 break 'outer;
             }
             tried += 1;
-            let r = isolated_execute(engine, &c);
+            let r = isolated_execute_if(engine, &c, signature.contains("process-death"));
             if r.invalid.is_some() {
                 continue;
             }
@@ -914,7 +920,7 @@ pub fn replay_main(engine_for: &dyn Fn(&str) -> Option<&'static dyn Engine>, pat
             return 2;
         }
     };
-    let r = isolated_execute(engine, &v["case"]);
+    let r = isolated_execute_if(engine, &v["case"], v["signature"].as_str().map(|s| s.contains("process-death")).unwrap_or(false));
     for l in &r.log {
         println!("  {}", l);
     }
